@@ -13,7 +13,7 @@ from typing import Any, Dict, List, Optional
 from .. import VERIF
 
 KNOWN_FINDINGS = os.path.join(VERIF, "known_findings.json")
-EVIDENCE_DIR = os.path.join(VERIF, "evidence")
+EVIDENCE_DIR = os.environ.get("MASHVERIF_EVIDENCE_DIR") or os.path.join(VERIF, "evidence")
 REPLAY_DIR = os.path.join(EVIDENCE_DIR, "replay")
 
 
